@@ -27,6 +27,32 @@ def docwords(obj):
     return words
 
 
+_TAG = __import__("re").compile(r"<[^>]*>")
+USE_RENDERED = False      # doctracers(): read the rendered `doc` (after Project.markdown) instead of doc_list
+
+
+def doctracers(obj):
+    """Tracer tokens of an entity's documentation: in the raw doc lines *and metadata*, or - once
+    Project.markdown() has run - in the rendered HTML (`doc`) plus metadata values."""
+    from vfw.model import TRACER
+    import html as _html
+    out = []
+    meta = getattr(obj, "meta", None)
+    for key in ("author", "version", "since", "category", "date", "license", "summary"):
+        v = getattr(meta, key, None) if meta is not None else None
+        if isinstance(v, (list, tuple)):
+            v = " ".join(str(x) for x in v)
+        if isinstance(v, str):
+            out.extend(t for t in TRACER.findall(_TAG.sub("", v)) if t[1] in "ms")
+    doc = getattr(obj, "doc", None) if USE_RENDERED else None
+    if isinstance(doc, str):
+        out.extend(t for t in TRACER.findall(_html.unescape(_TAG.sub("", doc))))
+    else:
+        for line in getattr(obj, "doc_list", None) or []:
+            out.extend(TRACER.findall(str(line)))
+    return [t for t in out if t[1] == "q"] + sorted(t for t in out if t[1] != "q")
+
+
 def var(v, in_common=False):
     """FortranVariable -> canonical record (same keys as model.canon_var)."""
     import ford.sourceform as sf
@@ -61,7 +87,7 @@ def var(v, in_common=False):
         "kind": squash(v.kind) if v.kind else None, "strlen": squash(v.strlen) if v.strlen else None,
         "proto": proto, "attrs": sorted(attrs), "dim": dim, "intent": (v.intent or "").lower(),
         "initial": squash(initial) if initial not in (None, "") else None, "points": bool(v.points),
-        "permission": (v.permission or "").lower(), "doc": docwords(v),
+        "permission": (v.permission or "").lower(), "doc": docwords(v), "doctr": doctracers(v),
     }
 
 
@@ -91,7 +117,7 @@ def proc(p, expected_perm=None):
         "prefix": sorted(a.lower() for a in p.attribs),
         "bind": squash(p.bindC) if getattr(p, "bindC", None) else None,
         "retvar": retvar(p.retvar) if hasattr(p, "retvar") and p.retvar is not None else None,
-        "permission": (p.permission or "").lower(), "doc": docwords(p), "calls": calls_of(p),
+        "permission": (p.permission or "").lower(), "doc": docwords(p), "doctr": doctracers(p), "calls": calls_of(p),
     }
     d.update(scope(p))
     return d
@@ -123,7 +149,7 @@ def ftype(t):
             "targets": sorted(_name(x) for x in b.bindings) if b.generic else [_name(x) for x in b.bindings],
             "iface": _name(b.proto) if b.proto else None,
             "attrs": sorted(squash(a) for a in b.attribs),
-            "permission": (b.permission or "").lower(), "doc": docwords(b),
+            "permission": (b.permission or "").lower(), "doc": docwords(b), "doctr": doctracers(b),
         })
     attrs = sorted(squash(a) for a in t.attribs)
     return {
@@ -132,7 +158,7 @@ def ftype(t):
         "components": sorted(comps, key=lambda v: v["name"]),
         "binds": sorted(binds, key=lambda b: b["name"]),
         "finals": sorted(_name(f.name) for f in t.finalprocs),
-        "permission": (t.permission or "").lower(), "doc": docwords(t),
+        "permission": (t.permission or "").lower(), "doc": docwords(t), "doctr": doctracers(t),
     }
 
 
@@ -157,7 +183,7 @@ def scope(u):
                 vs.append(var(v))
             elif isinstance(v, sf.FortranVariable) and v.parent is c:
                 vs.append(dict(var(v), kind_="implicit-in-common"))
-        commons.append({"name": _name(c.name) or "", "vars": names, "doc": docwords(c)})
+        commons.append({"name": _name(c.name) or "", "vars": names, "doc": docwords(c), "doctr": doctracers(c)})
     d["variables"] = sorted(vs, key=lambda v: v["name"])
     d["types"] = sorted((ftype(t) for t in getattr(u, "types", [])), key=lambda t: t["name"])
     generics, ifprocs = [], []
@@ -172,7 +198,7 @@ def scope(u):
                 "modprocs": sorted(_name(m.name) for m in i.modprocs) +
                             sorted(_name(v.name) for v in getattr(i, "variables", [])),
                 "bodies": sorted((proc(b) for b in list(i.functions) + list(i.subroutines)), key=lambda p: p["name"]),
-                "permission": (i.permission or "").lower(), "doc": docwords(i),
+                "permission": (i.permission or "").lower(), "doc": docwords(i), "doctr": doctracers(i),
             })
             generics[-1]["modprocs"].sort()
     d["interfaces"] = sorted(generics, key=lambda x: x["name"])
@@ -189,7 +215,7 @@ def scope(u):
                       for v in e.variables])
     d["enums"] = sorted(enums, key=lambda e: e[0]["name"] if e else "")
     d["commons"] = sorted(commons, key=lambda c: (c["name"], c["vars"]))
-    d["namelists"] = sorted(({"name": _name(n.name), "vars": [_name(v) for v in n.variables], "doc": docwords(n)}
+    d["namelists"] = sorted(({"name": _name(n.name), "vars": [_name(v) for v in n.variables], "doc": docwords(n), "doctr": doctracers(n)}
                              for n in getattr(u, "namelists", [])), key=lambda n: n["name"])
     procs = []
     modprocs = []
@@ -215,15 +241,15 @@ def unit(u):
         return proc(u)
     if isinstance(u, sf.FortranSubmodule):
         d = {"kind_": "submodule", "name": _name(u.name), "ancestor": _name(u.ancestor_module),
-             "parent": _name(u.parent_submodule) if u.parent_submodule else None, "doc": docwords(u)}
+             "parent": _name(u.parent_submodule) if u.parent_submodule else None, "doc": docwords(u), "doctr": doctracers(u)}
         d.update(scope(u))
         return d
     if isinstance(u, sf.FortranModule):
-        d = {"kind_": "module", "name": _name(u.name), "doc": docwords(u)}
+        d = {"kind_": "module", "name": _name(u.name), "doc": docwords(u), "doctr": doctracers(u)}
         d.update(scope(u))
         return d
     if isinstance(u, sf.FortranProgram):
-        d = {"kind_": "program", "name": _name(u.name), "doc": docwords(u), "calls": calls_of(u)}
+        d = {"kind_": "program", "name": _name(u.name), "doc": docwords(u), "doctr": doctracers(u), "calls": calls_of(u)}
         d.update(scope(u))
         return d
     if isinstance(u, sf.FortranBlockData):
@@ -232,7 +258,7 @@ def unit(u):
             nm = ""
         sc = scope(u)
         return {"kind_": "blockdata", "name": nm, "variables": sc["variables"], "types": sc["types"],
-                "commons": sc["commons"], "uses": sc["uses"], "doc": docwords(u)}
+                "commons": sc["commons"], "uses": sc["uses"], "doc": docwords(u), "doctr": doctracers(u)}
     return {"kind_": "unknown", "name": _name(u)}
 
 
